@@ -6,7 +6,9 @@ rows = []
 for sid in sorted(os.listdir(os.path.join(V, "seeded"))):
     m = json.load(open(os.path.join(V, "seeded", sid, "meta.json")))
     det = "; ".join(f"**{k}**: {v}" for k, v in m["detected_by"].items())
-    first = m["needs_to_manifest"].split("\n")[0][:230].replace("|", "/")
+    lines = [l.strip() for l in m["needs_to_manifest"].split("\n")]
+    lines = [l for l in lines if len(l) > 25 and not re.match(r"^C\d\d\b.{0,3}$", l)] or [""]
+    first = " ".join(lines[:2])[:230].replace("|", "/")
     rows.append(f"| `{sid}` | {m['property']} | {first} | {det.replace('|', '/')} |")
 n = len(rows)
 missed = sum(1 for r in rows if "MISSED" in r)
